@@ -530,3 +530,15 @@ pub fn lazy_f32_rejects_bad_entries() {
     assume(bad);
     assert!(LazyContiguousCategoricalEntropyModel::<u8, f32, &[f32], P>::from_floating_point_probabilities_fast(&p[..], norm).is_err(), "C19: lazy float table with a NaN or negative entry accepted");
 }
+
+/// C19/C03/C20 (bounded): as fast_f32_n3_p8 with 2 entries (all f32 bit patterns) - quick tier.
+#[cfg_attr(kani, kani::proof)]
+#[cfg_attr(kani, kani::unwind(6))]
+pub fn fast_f32_n2_p8() {
+    const P: usize = 8;
+    let p: [f32; 2] = [any(), any()];
+    if let Ok(m) = ContiguousCategoricalEntropyModel::<u8, Vec<u8>, P>::from_floating_point_probabilities_fast(&p, None) {
+        check_contiguous_model::<_, P>(&m, 2);
+    }
+    cover!(p[0] > 0.0 && p[1] > 0.0, "all positive");
+}
